@@ -17,11 +17,11 @@
 //   rcol_i <col> <T> <resize> <offset> <presize>
 //   rcolc_n <name> <T> <count> <resize> <offset> <presize>   the overload with an explicit count
 //   rcolc_i <col> <T> <count> <resize> <offset> <presize>
-//   colidx <name s:hex> | colname <col>
+//   colidx <name s:hex> | colname <col> | colidxs <k> <name>*k | colnames <k> <col>*k      (scalar and vector overloads)
 //   reopen ro|rw
 // value tokens: b:0|1  i32:<dec>  u32:<dec>  i64:<dec>  u64:<dec>  d:<16 hex>  s:<hex>  none
-// T: Int32 UInt32 Int64 UInt64 Double String (std::vector<bool> has no contiguous storage, the template does not
-// compile for it).  Mutating lines answer "done".
+// T: Int32 UInt32 Int64 UInt64 Double String, and the further element types Hydra accepts: Int8 Int16 UInt8 UInt16 Float
+// Char (std::vector<bool> has no contiguous storage, the template does not compile for it).  Mutating lines answer "done".
 #include "common.hpp"
 #include <hdf5.h>
 #include <algorithm>
@@ -104,13 +104,50 @@ static std::string enc_val(const nix::Variant &v) {
     }
 }
 
-template<typename T> struct conv;
-template<> struct conv<int32_t> { static int32_t of(const nix::Variant &v) { return v.get<int32_t>(); } };
-template<> struct conv<uint32_t> { static uint32_t of(const nix::Variant &v) { return v.get<uint32_t>(); } };
-template<> struct conv<int64_t> { static int64_t of(const nix::Variant &v) { return v.get<int64_t>(); } };
-template<> struct conv<uint64_t> { static uint64_t of(const nix::Variant &v) { return v.get<uint64_t>(); } };
-template<> struct conv<double> { static double of(const nix::Variant &v) { return v.get<double>(); } };
-template<> struct conv<std::string> { static std::string of(const nix::Variant &v) { return v.get<std::string>(); } };
+// element codecs of the column templates: one value token <-> one element of type T.  Besides the six element types a
+// Variant can hold, the templates accept every type Hydra knows: int8/int16/uint8/uint16 (tokens i8: i16: u8: u16:),
+// float (f:<8 hex>, bit pattern) and char (c:<dec>).
+static std::string tok_body(const std::string &t, const char *pfx) {
+    size_t n = std::strlen(pfx);
+    if (t.compare(0, n, pfx) != 0) throw std::logic_error(std::string("bad element token, expected ") + pfx + " got " + t);
+    return t.substr(n);
+}
+template<typename T> struct elt;
+template<> struct elt<int32_t> { static int32_t dec(const std::string &t) { return static_cast<int32_t>(std::stoll(tok_body(t, "i32:"))); }
+                                 static std::string enc(int32_t x) { return "i32:" + std::to_string(x); } };
+template<> struct elt<uint32_t> { static uint32_t dec(const std::string &t) { return static_cast<uint32_t>(std::stoull(tok_body(t, "u32:"))); }
+                                  static std::string enc(uint32_t x) { return "u32:" + std::to_string(x); } };
+template<> struct elt<int64_t> { static int64_t dec(const std::string &t) { return static_cast<int64_t>(std::stoll(tok_body(t, "i64:"))); }
+                                 static std::string enc(int64_t x) { return "i64:" + std::to_string(x); } };
+template<> struct elt<uint64_t> { static uint64_t dec(const std::string &t) { return static_cast<uint64_t>(std::stoull(tok_body(t, "u64:"))); }
+                                  static std::string enc(uint64_t x) { return "u64:" + std::to_string(x); } };
+template<> struct elt<double> { static double dec(const std::string &t) { return dec_dbl(t); }
+                                static std::string enc(double x) { return enc_dbl(x); } };
+template<> struct elt<std::string> { static std::string dec(const std::string &t) { return dec_str(t); }
+                                     static std::string enc(const std::string &x) { return enc_str(x); } };
+template<> struct elt<int8_t> { static int8_t dec(const std::string &t) { return static_cast<int8_t>(std::stoll(tok_body(t, "i8:"))); }
+                                static std::string enc(int8_t x) { return "i8:" + std::to_string(static_cast<int>(x)); } };
+template<> struct elt<int16_t> { static int16_t dec(const std::string &t) { return static_cast<int16_t>(std::stoll(tok_body(t, "i16:"))); }
+                                 static std::string enc(int16_t x) { return "i16:" + std::to_string(x); } };
+template<> struct elt<uint8_t> { static uint8_t dec(const std::string &t) { return static_cast<uint8_t>(std::stoull(tok_body(t, "u8:"))); }
+                                 static std::string enc(uint8_t x) { return "u8:" + std::to_string(static_cast<unsigned>(x)); } };
+template<> struct elt<uint16_t> { static uint16_t dec(const std::string &t) { return static_cast<uint16_t>(std::stoull(tok_body(t, "u16:"))); }
+                                  static std::string enc(uint16_t x) { return "u16:" + std::to_string(x); } };
+template<> struct elt<char> { static char dec(const std::string &t) { return static_cast<char>(std::stoll(tok_body(t, "c:"))); }
+                              static std::string enc(char x) { return "c:" + std::to_string(static_cast<int>(x)); } };
+template<> struct elt<float> {
+    static float dec(const std::string &t) {
+        std::string h = tok_body(t, "f:");
+        if (h.size() != 8) throw std::logic_error("expected f:<8hex> got " + t);
+        uint32_t bits = static_cast<uint32_t>(std::stoul(h, nullptr, 16));
+        float f; std::memcpy(&f, &bits, 4); return f;
+    }
+    static std::string enc(float x) {
+        uint32_t bits; std::memcpy(&bits, &x, 4);
+        if (x != x) bits = 0x7fc00000u;            // one NaN
+        char buf[16]; std::snprintf(buf, sizeof buf, "f:%08x", bits); return buf;
+    }
+};
 
 // the vector the caller hands in: values of type T, given as value tokens of exactly that type
 template<typename T>
@@ -118,18 +155,14 @@ static std::vector<T> dec_vec(const std::vector<std::string> &t, size_t at) {
     size_t n = static_cast<size_t>(dec_u64(t.at(at)));
     if (t.size() != at + 1 + n) throw std::logic_error("bad value count");
     std::vector<T> out;
-    for (size_t i = 0; i < n; i++) {
-        nix::Variant v = dec_val(t[at + 1 + i]);
-        if (v.type() != nix::to_data_type<T>::value) throw std::logic_error("bad element type in column vector");
-        out.push_back(conv<T>::of(v));
-    }
+    for (size_t i = 0; i < n; i++) out.push_back(elt<T>::dec(t[at + 1 + i]));
     return out;
 }
 
 template<typename T>
 static std::string enc_vec(const std::vector<T> &v) {
     std::string o = "[";
-    for (const T &x : v) o += " " + enc_val(nix::Variant(x));
+    for (const T &x : v) o += " " + elt<T>::enc(x);
     return o + " ]";
 }
 
@@ -168,10 +201,32 @@ static std::string rcol(bool byname, bool withcount, const std::vector<std::stri
 #define DISPATCH(T, CALL) \
     (T == "Int32" ? CALL(int32_t) : T == "UInt32" ? CALL(uint32_t) : T == "Int64" ? CALL(int64_t) : \
      T == "UInt64" ? CALL(uint64_t) : T == "Double" ? CALL(double) : T == "String" ? CALL(std::string) : \
+     T == "Int8" ? CALL(int8_t) : T == "Int16" ? CALL(int16_t) : T == "UInt8" ? CALL(uint8_t) : \
+     T == "UInt16" ? CALL(uint16_t) : T == "Float" ? CALL(float) : T == "Char" ? CALL(char) : \
      throw std::logic_error("bad element type " + T))
 
 static std::string enc_cell(const nix::Cell &c) {
     return std::to_string(c.col) + " " + enc_str(c.name) + " " + enc_val(c);
+}
+
+// Cell(name, const char*) / Cell(name, const T&) / Cell(int col, const T&): the value-constructing constructors
+template<typename K>
+static nix::Cell typed_cell(const K &key, const nix::Variant &v) {
+    switch (v.type()) {
+    case nix::DataType::Bool: return nix::Cell(key, v.get<bool>());
+    case nix::DataType::Int32: return nix::Cell(key, v.get<int32_t>());
+    case nix::DataType::UInt32: return nix::Cell(key, v.get<uint32_t>());
+    case nix::DataType::Int64: return nix::Cell(key, v.get<int64_t>());
+    case nix::DataType::UInt64: return nix::Cell(key, v.get<uint64_t>());
+    case nix::DataType::Double: return nix::Cell(key, v.get<double>());
+    case nix::DataType::String: return nix::Cell(key, v.get<std::string>());
+    default: throw std::logic_error("typed cell of an empty Variant");
+    }
+}
+// a string cell by name through the const char* overload
+static nix::Cell typed_cell(const std::string &name, const nix::Variant &v) {
+    if (v.type() == nix::DataType::String) { std::string s = v.get<std::string>(); return nix::Cell(name, s.c_str()); }
+    return typed_cell<std::string>(name, v);
 }
 
 // The same writeCells request -- the list of (column or name, value) in `want` -- handed over through different
@@ -286,6 +341,28 @@ static std::string handle(const std::vector<std::string> &t) {
         return o.str();
     }
     if (c == "colidx") { o << df.colIndex(dec_str(t.at(1))); return o.str(); }
+    if (c == "colidxs") {           // colIndex(vector<string>)
+        size_t k = static_cast<size_t>(dec_u64(t.at(1)));
+        if (t.size() != 2 + k) throw std::logic_error("bad name count");
+        std::vector<std::string> names;
+        for (size_t i = 0; i < k; i++) names.push_back(dec_str(t[2 + i]));
+        std::vector<unsigned> r = df.colIndex(names);
+        o << "[";
+        for (unsigned x : r) o << " " << x;
+        o << " ]";
+        return o.str();
+    }
+    if (c == "colnames") {          // colName(vector<unsigned>)
+        size_t k = static_cast<size_t>(dec_u64(t.at(1)));
+        if (t.size() != 2 + k) throw std::logic_error("bad index count");
+        std::vector<unsigned> idx;
+        for (size_t i = 0; i < k; i++) idx.push_back(static_cast<unsigned>(dec_u64(t[2 + i])));
+        std::vector<std::string> r = df.colName(idx);
+        o << "[";
+        for (const std::string &x : r) o << " " << enc_str(x);
+        o << " ]";
+        return o.str();
+    }
     if (c == "colname") { return enc_str(df.colName(static_cast<unsigned>(dec_u64(t.at(1))))); }
     if (c == "wrow") {
         size_t n = static_cast<size_t>(dec_u64(t.at(2)));
@@ -298,12 +375,21 @@ static std::string handle(const std::vector<std::string> &t) {
     if (c.compare(0, 8, "wcells_n") == 0 || c.compare(0, 8, "wcells_i") == 0) {
         bool byname = c[7] == 'n';
         std::string route = c.size() > 9 && c[8] == ':' ? c.substr(9) : "brace";
+        // "<route>/typed": the Cells are built by the value-constructing constructors Cell(name, const char*),
+        // Cell(name, const T&), Cell(int col, const T&) instead of Cell(name | unsigned, Variant)
+        bool typed = false;
+        size_t sl = route.find('/');
+        if (sl != std::string::npos) { typed = route.substr(sl + 1) == "typed"; route = route.substr(0, sl); }
         size_t k = static_cast<size_t>(dec_u64(t.at(2)));
         if (t.size() != 3 + 2 * k) throw std::logic_error("bad cell count");
         std::vector<nix::Cell> want;               // the request, every element freshly constructed
         for (size_t i = 0; i < k; i++) {
             nix::Variant v = dec_val(t[4 + 2 * i]);
-            if (byname) want.push_back(nix::Cell(dec_str(t[3 + 2 * i]), v));
+            if (typed && v.type() != nix::DataType::Nothing) {
+                if (byname) want.push_back(typed_cell(dec_str(t[3 + 2 * i]), v));
+                else want.push_back(typed_cell(static_cast<int>(dec_u64(t[3 + 2 * i])), v));
+            }
+            else if (byname) want.push_back(nix::Cell(dec_str(t[3 + 2 * i]), v));
             else want.push_back(nix::Cell(static_cast<unsigned>(dec_u64(t[3 + 2 * i])), v));
         }
         df.writeCells(dec_u64(t.at(1)), build_cells(want, route));
